@@ -687,11 +687,36 @@ impl<W: Word, B: AsRef<[W]> + AsMut<[W]>> BitFieldSliceMut<W> for BitFieldVec<W,
         }
         let bit_width = self.bit_width();
         if bit_width == 0 {
+            // All values are zero and there is nothing to store, but the
+            // function must still be applied once per element
+            for _ in 0..self.len() {
+                f(W::ZERO);
+            }
+            return;
+        }
+        if bit_width == W::BITS {
+            // Each value is a word: the buffered code below would shift by
+            // the whole word size
+            let len = self.len();
+            for word in self.bits.as_mut()[..len].iter_mut() {
+                *word = f(*word);
+            }
             return;
         }
         let mask = self.mask();
-        let number_of_words: usize = self.bits.as_ref().len();
+        // Only the words containing values are processed: the backend might
+        // be longer (padding, spare capacity, caller-supplied storage)
+        let bit_len = self.len() * bit_width;
+        let number_of_words: usize = bit_len.div_ceil(W::BITS);
         let last_word_idx = number_of_words.saturating_sub(1);
+        // The bits of the last word beyond the end of the vector must be
+        // preserved
+        let last_word_residual = bit_len % W::BITS;
+        let last_word_slack = if last_word_residual == 0 {
+            W::ZERO
+        } else {
+            *self.bits.as_ref().get_unchecked(last_word_idx) & (W::MAX << last_word_residual)
+        };
 
         let mut write_buffer: W = W::ZERO;
         let mut read_buffer: W = *self.bits.as_ref().get_unchecked(0);
@@ -749,7 +774,7 @@ impl<W: Word, B: AsRef<[W]> + AsMut<[W]>> BitFieldSliceMut<W> for BitFieldVec<W,
                 bits_in_buffer += bit_width;
             }
 
-            *self.bits.as_mut().get_unchecked_mut(last_word_idx) = write_buffer;
+            *self.bits.as_mut().get_unchecked_mut(last_word_idx) = write_buffer | last_word_slack;
             return;
         }
 
@@ -824,7 +849,7 @@ impl<W: Word, B: AsRef<[W]> + AsMut<[W]>> BitFieldSliceMut<W> for BitFieldVec<W,
             offset += bit_width;
         }
 
-        *self.bits.as_mut().get_unchecked_mut(last_word_idx) = write_buffer;
+        *self.bits.as_mut().get_unchecked_mut(last_word_idx) = write_buffer | last_word_slack;
     }
 
     type ChunksMut<'a>
